@@ -381,3 +381,6 @@ def check(ctx):
     ctx.rule("R9", "a pump's change is heard wherever its byte lies in the update: the mode decision hangs on the device's change notification, and that on the item's range filter - the early return is taken only when the replaced range [offset, offset+len) and the item's bytes are disjoint, all orderings of the end points enumerated - a filter that misses an item in the LAST byte of a replaced segment (or any 1-byte segment) leaves the idle table in force while a pump runs, and no sleeper is woken (C03.R4 borrowed)")
     from .c03 import intersection_filter as _if17
     _if17(ctx.borrowed("R9", "C03"), repo)
+    ctx.rule("R10", "a change learnt through the refresh is heard too: the periodic block transfer installs what it fetched through the NOTIFYING install (one call for the whole range), so a pump that was switched while its STATP push was lost still reaches the facade's mode decision - a transfer that stores the fetched bytes without notifying the items leaves the idle table in force while the pump runs, until the facade's own pass, up to two minutes later (C01's transfer scenarios, observed at the notifying install, borrowed)")
+    from .c01 import async_assembly_model as _aam17
+    _aam17(ctx.borrowed("R10", "C01", only=("R3",)), repo, observe="calls")
